@@ -79,7 +79,7 @@ def do_check(prop: str, tier: str, seed: int, only, keep: bool) -> int:
             unit_infos[unit.name] = info
             rewrites += info.get("rewrites", [])
             hmap = {h.name: h for h in unit.harnesses}
-            expected = [h.name for h in unit.harnesses if tier in h.tiers and (not only or h.name in only)
+            expected = [h.name for h in unit.harnesses if (tier in h.tiers or h.name in info.get("seed_rotated_extras", [])) and (not only or h.name in only)
                         and not (tier == "quick" and h.quick_seed_slot is not None and seed % h.quick_seed_slot[1] != h.quick_seed_slot[0])]
             for nm in expected:
                 if nm not in results:
@@ -191,6 +191,7 @@ def do_check(prop: str, tier: str, seed: int, only, keep: bool) -> int:
         "functions_encoded": sorted(functions),
         "bounds": bounds,
         "rewrites_and_stubs": rewrites,
+        "seed_rotated_extra_harnesses": sorted(x for i in unit_infos.values() for x in i.get("seed_rotated_extras", [])),
         "harnesses": per_harness,
         "solver_s": round(solver_s, 3),
         "vccs_generated": vccs,
